@@ -103,35 +103,35 @@ const IO_STUB: &[&str] = &["reader: simulated Read with short reads, EINTR, hard
 const IO_RULE: &str = "a case = (a) the zoo of 25 exported types in default / valid states, or (b) a generated locomotive / consist simulation of 4-40 steps with EVERY step index as a crash point x 3 formats (string or faulty-reader channel), with limit checking on or off and optional braking in the first steps, or (c) a generated set-speed / speed-limited train simulation (finished or unfinished path) with 8 sampled crash points x 3 formats, plus round trips of its builder, path, network and est-time network, or (d, 30 %) a pt-world run with seeded crash ops and a fault-free twin; distinct = distinct hash of (scenario class, fault kinds fired); non-trivial = at least 5 steps";
 
 pub const PROPS: &[PropInfo] = &[
-    PropInfo { id: "C17", world: "io", level: "fault_enumeration", quick_runs: 1200, thorough_runs: 80_000, rule: IO_RULE, real: IO_REAL, stub: IO_STUB,
+    PropInfo { id: "C17", world: "io", level: "fault_enumeration", quick_runs: 3_000, thorough_runs: 150_000, rule: IO_RULE, real: IO_REAL, stub: IO_STUB,
         assumptions: &["equality = identical yaml rendering (bit-exact floats; NaN sentinels equal themselves; lazily rebuilt #[serde(skip)] caches are not part of it)", "reload vs original is compared for yaml and bincode; for json only 'no drift' and 1e-9 on resumed totals (statement's own allowance)", "atomicity of to_file against a crash during the write is not claimed"] },
-    PropInfo { id: "C18", world: "thr", level: "exploration", quick_runs: 900, thorough_runs: 60_000, rule: THR_RULE, real: THR_REAL, stub: THR_STUB,
+    PropInfo { id: "C18", world: "thr", level: "exploration", quick_runs: 2_000, thorough_runs: 80_000, rule: THR_RULE, real: THR_REAL, stub: THR_STUB,
         assumptions: &["the controlled runs go through the executor seam, not through rayon's own call expression; the real rayon branch is only observed (DESIGN 6)", "hash-order control relies on std resolving getrandom as a weak symbol (start-up self-test guards it)", "data races in safe Rust are excluded by the type system: what a schedule can expose is hidden shared state and order-dependent reduction"] },
-    PropInfo { id: "C04", world: "dsp", level: "exploration", quick_runs: 700, thorough_runs: 40_000, rule: DSP_RULE, real: DSP_REAL, stub: DSP_STUB,
+    PropInfo { id: "C04", world: "dsp", level: "exploration", quick_runs: 5_000, thorough_runs: 150_000, rule: DSP_RULE, real: DSP_REAL, stub: DSP_STUB,
         assumptions: &["times compared with 1e-6 s, offsets with 1e-6 m of slack", "an authority's window starts at its first-seen arrive_entry (the dispatcher shrinks it when a train exits)", "scenarios whose est-time construction fails are discarded and counted (discarded.setup.*)"] },
-    PropInfo { id: "C05", world: "dsp", level: "exploration", quick_runs: 700, thorough_runs: 40_000, rule: DSP_RULE, real: DSP_REAL, stub: DSP_STUB,
+    PropInfo { id: "C05", world: "dsp", level: "exploration", quick_runs: 5_000, thorough_runs: 150_000, rule: DSP_RULE, real: DSP_REAL, stub: DSP_STUB,
         assumptions: &["memory safety is decided at the level 'no out-of-range unchecked access on any explored history' (std unsafe-precondition checks live in the debug-assertions build)", "free-running time per pair of consecutive dispatch nodes read from the train's own EstTimeNet (DESIGN C05)"] },
-    PropInfo { id: "C15", world: "dsp", level: "exploration", quick_runs: 500, thorough_runs: 30_000, rule: DSP_RULE, real: DSP_REAL, stub: DSP_STUB,
+    PropInfo { id: "C15", world: "dsp", level: "exploration", quick_runs: 3_000, thorough_runs: 100_000, rule: DSP_RULE, real: DSP_REAL, stub: DSP_STUB,
         assumptions: &["weak fit for this technique (DESIGN 5): the est-time network is a pure function of (train, network); checked where it is handed to the dispatcher", "all start-to-end walks are sampled (24 seeded walks per graph with alternatives)"] },
-    PropInfo { id: "C03", world: "trn", level: "exploration", quick_runs: 1200, thorough_runs: 60_000, rule: TRN_RULE, real: TRN_REAL, stub: TRN_STUB,
+    PropInfo { id: "C03", world: "trn", level: "exploration", quick_runs: 3_000, thorough_runs: 150_000, rule: TRN_RULE, real: TRN_REAL, stub: TRN_STUB,
         assumptions: &["grade bound 0.8 % and dt in {0.5, 1, 2} s are domain parameters", "a timed walk's internal extension times are not observable: posted limits are evaluated over the path as it ended up", "bounded liveness is stated only after the last authority has been delivered and the last injected fault has fired"] },
-    PropInfo { id: "C07", world: "trn", level: "exploration", quick_runs: 1200, thorough_runs: 60_000, rule: TRN_RULE, real: TRN_REAL, stub: TRN_STUB,
+    PropInfo { id: "C07", world: "trn", level: "exploration", quick_runs: 3_000, thorough_runs: 150_000, rule: TRN_RULE, real: TRN_REAL, stub: TRN_STUB,
         assumptions: &["force saved at step k belongs to the position and speed saved at step k-1 (statement)", "coefficients re-aggregated from the car list, mass-weighted over the towed mass as make_train_sim_parts documents", "tolerance 1e-9 relative + 1e-6 N", "the Point method is not produced by TrainSimBuilder and is not exercised"] },
-    PropInfo { id: "C11", world: "trn", level: "exploration", quick_runs: 1200, thorough_runs: 60_000, rule: TRN_RULE, real: TRN_REAL, stub: TRN_STUB,
+    PropInfo { id: "C11", world: "trn", level: "exploration", quick_runs: 3_000, thorough_runs: 150_000, rule: TRN_RULE, real: TRN_REAL, stub: TRN_STUB,
         assumptions: &["tolerance 1e-9 relative (1e-8 on instantaneous power)"] },
-    PropInfo { id: "C12", world: "trn", level: "exploration", quick_runs: 1200, thorough_runs: 60_000, rule: TRN_RULE, real: TRN_REAL, stub: TRN_STUB,
+    PropInfo { id: "C12", world: "trn", level: "exploration", quick_runs: 3_000, thorough_runs: 150_000, rule: TRN_RULE, real: TRN_REAL, stub: TRN_STUB,
         assumptions: &["offset advance tolerance 1e-5 m (the code snaps speed to its target within 1e-8 after integrating)", "a front exactly on a boundary may be reported on either adjacent segment"] },
-    PropInfo { id: "C14", world: "trn", level: "exploration", quick_runs: 1500, thorough_runs: 80_000, rule: TRN_RULE, real: TRN_REAL, stub: TRN_STUB,
+    PropInfo { id: "C14", world: "trn", level: "exploration", quick_runs: 10_000, thorough_runs: 400_000, rule: TRN_RULE, real: TRN_REAL, stub: TRN_STUB,
         assumptions: &["the upper clip is min(published pwr_out_max, previous wheel power + published rate x previous dt), i.e. computed from published consist state only", "tolerance 1e-9 relative"] },
     PropInfo { id: "C20", world: "mass", level: "exploration", quick_runs: 60_000, thorough_runs: 3_000_000, rule: MASS_RULE, real: MASS_REAL, stub: MASS_STUB,
         assumptions: &["weak fit for this technique: only the rejected-update atomicity clause and the reload of setter-accepted states involve a fault; the algebra is a sequential reference-model comparison", "train static mass = cars + consist is checked in the trn world on built simulations"] },
-    PropInfo { id: "C16", world: "val", level: "fault_enumeration", quick_runs: 1500, thorough_runs: 100_000, rule: VAL_RULE, real: VAL_REAL, stub: VAL_STUB,
+    PropInfo { id: "C16", world: "val", level: "fault_enumeration", quick_runs: 3_000, thorough_runs: 150_000, rule: VAL_RULE, real: VAL_REAL, stub: VAL_STUB,
         assumptions: &["reading fixed in DESIGN C16: speed sections may overlap and nest, catenary sections may not overlap", "infinite lengths / speeds / powers are outside what the rules decide: only 'no panic' is required for them", "lockout declarations are not part of the stated rules and are not mutated", "bincode is not an advertised network load path for this property (C17 covers it)"] },
-    PropInfo { id: "C02", world: "trk", level: "exploration", quick_runs: 200_000, thorough_runs: 3_000_000, rule: TRK_RULE, real: TRK_REAL, stub: TRK_STUB,
+    PropInfo { id: "C02", world: "trk", level: "exploration", quick_runs: 1_000_000, thorough_runs: 20_000_000, rule: TRK_RULE, real: TRK_REAL, stub: TRK_STUB,
         assumptions: &["positive speeds only (negative 'reverse' limits are outside the domain)", "exact comparison: the code only copies and compares speeds", "PathTpc::clear/reindex/recalc_speeds are not reachable from the simulations and not exercised"] },
-    PropInfo { id: "C13", world: "trk", level: "exploration", quick_runs: 200_000, thorough_runs: 3_000_000, rule: TRK_RULE, real: TRK_REAL, stub: TRK_STUB,
+    PropInfo { id: "C13", world: "trk", level: "exploration", quick_runs: 1_000_000, thorough_runs: 20_000_000, rule: TRK_RULE, real: TRK_REAL, stub: TRK_STUB,
         assumptions: &["same input space as C02", "a restriction covers [start, end) (+ train length for tail-end sets)"] },
-    PropInfo { id: "C06", world: "trk", level: "exploration", quick_runs: 200_000, thorough_runs: 3_000_000, rule: TRK_RULE, real: TRK_REAL, stub: TRK_STUB,
+    PropInfo { id: "C06", world: "trk", level: "exploration", quick_runs: 1_000_000, thorough_runs: 20_000_000, rule: TRK_RULE, real: TRK_REAL, stub: TRK_STUB,
         assumptions: &["reference comparisons 1e-9 relative; partition-vs-one-call comparison bit-exact (PartialEq)", "nothing is promised about a path object after a refused extension (it is discarded)"] },
     PropInfo { id: "C01", world: "pt", level: "exploration", quick_runs: 20_000, thorough_runs: 1_000_000, rule: PT_RULE, real: PT_REAL, stub: PT_STUB,
         assumptions: &["engine on (engine-off steps belong to C08)", "efficiency maps, ratings, battery maps, SOC inside the generator domain (DESIGN 2.3)", "tolerance 1e-9 relative to the largest term (measured residual of the unchanged tree ~1e-14)"] },
